@@ -228,18 +228,21 @@ def stress_sweep():
             n = min(n, big // len(ch.encode()) if len(ch.encode()) > 1 else big)
             run = _run(ch, n)
             for plabel, key, token, isname in RUN_POSITIONS:
-                if cname in WS:
-                    val = run[: n // 2] + token + run[: n // 2]
-                else:
-                    val = run
-                kw = {key: val}
-                if key == "O":
-                    kw["RESET"] = True
-                if key == "U":
-                    kw["CNU"] = "metre"
-                doc = base20(**kw)
-                if len(doc) <= MAXLEN:
-                    out.append(("stress:%s/%s*%d" % (plabel, cname, n), doc))
+                if cname not in WS:
+                    vals = [("", run)]
+                elif n < big:
+                    vals = [("both", run[: n // 2] + token + run[: n // 2])]
+                else:       # the longest run on ONE side of a valid token: leading, then trailing
+                    vals = [("lead", run + token), ("trail", token + run)]
+                for side, val in vals:
+                    kw = {key: val}
+                    if key == "O":
+                        kw["RESET"] = True
+                    if key == "U":
+                        kw["CNU"] = "metre"
+                    doc = base20(**kw)
+                    if len(doc) <= MAXLEN:
+                        out.append(("stress:%s/%s%s*%d" % (plabel, cname, "-" + side if side else "", n), doc))
             # element name and attribute name (only name characters are well-formed there)
             if cname in ("letter", "nine", "dot", "minus", "e", "zero", "utf8") and n == big:
                 nm = "a" + run[: big - 10]
